@@ -10,3 +10,5 @@ import J1939.Props.C06
 #print axioms J1939.Props.C06.c06_22_rcv_giveup
 #print axioms J1939.Props.C06.c06_22_snd_giveup
 #print axioms J1939.Props.C06.c06_22_timeouts
+#print axioms J1939.Props.C06.c06_send_wakes
+#print axioms J1939.Props.C06.c06_22_send_wakes
